@@ -163,19 +163,10 @@ def parseOp (ws : List String) : Option Op :=
 
 def FUEL : Nat := 20000
 
-/-- operators that hand on exactly one answer per upstream answer, with their slack constant
-    (`none` = not one-to-one).  Same table as `Pipeline.slack` in the proofs. -/
-def slackOf : Op → Option Nat
-  | .map _ => some 0
-  | .peek => some 0
-  | .accumulate _ _ => some 0
-  | .head _ => some 1
-  | .buffer n => some (n + 2)
-  | .parmap _ c _ _ => some (2 * c + 3)
-  | _ => Option.none
-
+/-- `slackAll` for chains of one-to-one operators (`none` otherwise) — the very definitions
+    `C03_incremental` is stated with -/
 def chainSlack (ops : List Op) : Option Nat :=
-  ops.foldl (fun acc op => do some ((← acc) + (← slackOf op))) (some 0)
+  if ops.all Op.oneOne then some (slackAll ops) else Option.none
 
 structure RunRes where
   vals : List Val
